@@ -214,4 +214,42 @@ def run_config(cfg):
                 else:
                     acc.violation('C20:modulo-zero-accepted', f"modulo={z!r} accepted", cfg=cfg)
             acc.state(('ctor',))
+        # "refused" means that nothing of the block is left behind: the application catches the
+        # error and goes on with the same circuit, which starts and counts as usual
+        for z in (0, 0.0, False):
+            for order in ('before', 'after'):
+                acc.execs += 1
+                with Sim() as sim:
+                    res = {}
+
+                    def refused():
+                        try:
+                            edzed.Counter('zero', modulo=z, initdef=3)
+                        except Exception:   # pylint: disable=broad-except
+                            pass
+                    if order == 'before':
+                        refused()
+                    good = edzed.Counter('good', modulo=5, initdef=7)
+                    if order == 'after':
+                        refused()
+                    res['names'] = sorted(b.name for b in sim.circuit.getblocks())
+
+                    async def driver():
+                        task = asyncio.create_task(sim.circuit.run_forever())
+                        try:
+                            await sim.circuit.wait_init()
+                            res['out0'] = good.output
+                            res['inc'] = edzed.ExtEvent(good, 'inc').send(amount=4)
+                        except Exception as err:    # pylint: disable=broad-except
+                            res['err'] = repr(err)
+                        await stop(sim.circuit)
+                        del task
+                    sim.run(driver())
+                acc.outcome(('ctor-leftover', repr(z), order, repr(res)))
+                acc.state(('ctor-leftover', 'err' in res))
+                if res['names'] != ['good'] or 'err' in res or (res.get('out0'), res.get('inc')) != (2, 1):
+                    acc.violation('C20:modulo-zero-not-refused',
+                                  f"Counter('zero', modulo={z!r}) raised, the circuit was used further "
+                                  f"(refused counter created {order} a valid one): blocks {res['names']}, "
+                                  f"start/count result {res}", cfg=cfg)
     return acc
